@@ -303,6 +303,7 @@ def _expand_state_inner(task):
         dv = DimView(w0)
         twin = spec.get("twin")
         w0t = None
+        o0t = None
         if twin:
             from . import twin as TW
             wspec_t, hist_t = (TW.flip_contraction if twin == "c08" else TW.distinct_values)(wspec, history)
@@ -345,7 +346,14 @@ def _expand_state_inner(task):
             tree_p = 0.0
             leaves_t = None
             if twin == "c08" and not fault:
-                leaves_t, _c = run_leaves(w0t, a)
+                if o0t is None:
+                    o0t = Obs(w0t)
+                if m0.enabled(a, DimView(w0t), o0t):
+                    leaves_t, _c = run_leaves(w0t, a)
+                else:
+                    # the request is not a valid one in the twin's storage layout (e.g. Envelope.contract() on a
+                    # vector-level envelope): nothing to compare
+                    out["twin_skipped"] += 1
             for script, res, w1 in leaves:
                 out["n_trans"] += 1
                 out["n_leaves"] += 1
@@ -367,7 +375,7 @@ def _expand_state_inner(task):
                     if spec.get("continuation") and res.ok and a[0] == "measure" and not any(
                             v["sig"]["property"] == spec["prop"] for v in V):
                         V.extend(continuation_c05(T, w1, m0))
-                    if twin == "c08":
+                    if twin == "c08" and leaves_t is not None:
                         V.extend(TW.compare_c08(T, leaves_t, list(m0.ref.names), m0.ref.dims, Obs))
                         out["twin_compared"] += 1
                     elif twin == "c18":
